@@ -241,6 +241,55 @@ def real_file_family(ctx):
                         ctx.violation("corr:real-file-append", dict(real_file=True, sessions=repr(sessions)), impl=why, model="records submitted to this file, in order; header kept",
                                       signature="C07:real-file:append-does-not-read-back-as-submitted", found_input=True)
                         return
+        # ---- a Writer on a real BUFFERED file, observed through a second handle after every flush (also flushes with nothing
+        # pending: header only, after a write that itself crossed the interval, after write_block, after an append reopen)
+        from fastavro.write import Writer
+        donor = io.BytesIO()
+        fastavro.writer(donor, A, [{"a": 900, "s": "donor"}], codec="null")
+        donor.seek(0)
+        donor_block = next(iter(fastavro.block_reader(donor)))
+        for it in range(3 if ctx.quick() else 40):
+            path = os.path.join(d, "live_%d.avro" % it)
+            si = rng.choice([1, 30, 16000])
+            fo = open(path, "wb")
+            w = Writer(fo, A, codec=rng.choice(K.CODECS), sync_interval=si)
+            submitted, steps_done = [], []
+
+            def observe(label):
+                steps_done.append(label)
+                data = open(path, "rb").read()
+                t, out = K.impl_read_file(data)
+                ctx.count("corr:real-file-live", (it, len(steps_done)), nontrivial=bool(submitted))
+                if not t.endswith("|END") or out != submitted:
+                    ctx.violation("corr:real-file-live", dict(real_file=True, live=True, sync_interval=si, steps=list(steps_done)),
+                                  impl="after %s the file on disk reads back as %s (%d records), submitted %d" % (label, t[-40:], len(out), len(submitted)),
+                                  model="after each flush the file reads back as the records submitted so far",
+                                  signature="C07:real-file:flush-does-not-reach-the-file", found_input=True)
+                    return False
+                return True
+            try:
+                w.flush()
+                good = observe("flush (header only)")
+                for k in range(rng.choice([2, 4])):
+                    if not good:
+                        break
+                    r = {"a": k, "s": "x" * rng.choice([1, 40])}
+                    w.write(r); submitted.append(r)
+                    w.flush()
+                    good = observe("write + flush") and (w.flush() or True) and observe("second flush, nothing pending")
+                if good:
+                    w.write_block(donor_block); submitted.append({"a": 900, "s": "donor"})
+                    w.flush()
+                    good = observe("write_block + flush")
+                if good:
+                    big = {"a": 7, "s": "B" * 200}
+                    w.write(big); submitted.append(big)       # crosses the interval when si <= 200: dumped by write itself
+                    w.flush()
+                    good = observe("large write + flush")
+            finally:
+                fo.close()
+            if not good:
+                return
     finally:
         shutil.rmtree(d, ignore_errors=True)
 
